@@ -470,6 +470,41 @@ func runC16(c *core.Case) *core.Result {
 		}
 		c.Count("error_packs_applied_to_client", 1)
 	}
+	// a refused push: the server answers the victim's push of new operations with an error
+	// pack built the way finalize builds it (the response pack starts as a copy of the
+	// request's, checkpoint included); afterwards the same operations must still reach the
+	// server with the next sync.
+	for _, code := range []errors.ErrorCode{errors.PushPullAbortionOfServer, errors.PushPullMissingOps} {
+		crdt.Apply(vd.DT, crdt.Op{Kind: "inc", N: 1})
+		crdt.Apply(vd.DT, crdt.Op{Kind: "inc", N: 1})
+		req := victim.BuildRequest(vd)
+		rp := req.PushPullPacks[0].GetResponsePushPullPack()
+		rp.Option = uint32(model.PushPullBitError)
+		rp.Operations = []*model.Operation{operations.NewErrorOperationWithCodeAndMsg(code, "refused push").ToModelOperation()}
+		c.Step("victim's push of 2 operations is refused with code %d", code)
+		if pm := safely(func() { vd.W.ApplyPushPullPack(rp) }); pm != "" {
+			return c.Violation("client-panic-on-error-pack", "ApplyPushPullPack panicked on a refused push: %s", pm)
+		}
+		w.idle()
+		issued := vd.W.CreatePushPullPack().CheckPoint.Cseq
+		if ex, pm := victim.Sync(vd); pm != "" || ex.Out.Err != nil || ex.Out.Panic != "" || ex.Out.TimedOut || ex.Refused() {
+			return c.Violation("client-unusable-after-errors", "after a refused push the client's next sync of the same datatype fails (rpc err %v, client panic %q, refused %v)", ex.Out.Err, pm, ex.Refused())
+		}
+		w.idle()
+		dd := w.b.Datatype(w.colNum, vd.Key)
+		stored := uint64(0)
+		if dd != nil {
+			for _, o := range w.b.Ops(dd.DUID) {
+				if o.OpID.CUID == victim.Model.CUID {
+					stored++
+				}
+			}
+		}
+		if stored != issued {
+			return c.Violation("refused-operations-never-resent", "after a refused push and a successful sync the client has issued operations up to seq %d but %d of them are stored: the refused operations were not sent again", issued, stored)
+		}
+		c.Count("refused_pushes_recovered", 1)
+	}
 	crdt.Apply(vo.DT, crdt.Op{Kind: "inc", N: 1})
 	ex, pm := victim.Sync(vo)
 	if pm != "" || ex.Out.Err != nil || ex.Out.Panic != "" || ex.Out.TimedOut || ex.Refused() {
